@@ -1,6 +1,7 @@
 (* Property C02 -- seeds never change what a clone produces. *)
 From Bita Require Import Model.Base Model.ChunkIndex Model.CloneOutput Model.CloneSpec.
-From Bita Require Import Proofs.Planner Proofs.CloneCorrect Proofs.CloneFinal.
+From Bita Require Import Model.HashSum.
+From Bita Require Import Proofs.Planner Proofs.CloneCorrect Proofs.CloneFinal Proofs.HashKeyRefine.
 
 (* For every source, every prior output (used as seed or not), EVERY list of seed chunks that are what
    their hash says they are (any number, any order, related to the source or not; keys that are not in
@@ -28,6 +29,26 @@ Proof.
   cbv zeta in E1, E2. rewrite E1, E2. reflexivity.
 Qed.
 
+(* "keys stand for truncated hashes": the index keyed by HashSum bytes with its hash_length (add_chunk
+   truncates the key, contains/remove truncate the query) IS the id-keyed index of the theorems above, up to
+   any key assignment that is injective on the (truncated) hashes involved; and lookups truncate
+   consistently whatever the length of the hash offered. *)
+Theorem C02_hash_keyed_index_refines_add : forall (kid : hsum -> N) L idx h size offs,
+  inj_on kid (hs_truncate L h :: map fst idx) ->
+  abs kid (hci_add L idx h size offs) = ci_add (abs kid idx) (kid (hs_truncate L h)) size offs.
+Proof. exact hci_add_refines. Qed.
+Theorem C02_hash_keyed_index_refines_remove : forall (kid : hsum -> N) L idx h,
+  inj_on kid (hs_truncate L h :: map fst idx) ->
+  abs kid (hci_remove L idx h) = ci_remove (abs kid idx) (kid (hs_truncate L h)).
+Proof. exact hci_remove_refines. Qed.
+Theorem C02_hash_keyed_index_refines_contains : forall (kid : hsum -> N) L idx h,
+  inj_on kid (hs_truncate L h :: map fst idx) ->
+  hci_contains L idx h = ci_contains (abs kid idx) (kid (hs_truncate L h)).
+Proof. exact hci_contains_refines. Qed.
+Theorem C02_lookup_truncates_consistently : forall L idx h1 h2, takeN L h1 = takeN L h2 ->
+  hci_contains L idx h1 = hci_contains L idx h2 /\ hci_remove L idx h1 = hci_remove L idx h2.
+Proof. exact lookup_same_prefix. Qed.
+
 Example C02_example :
   let cidx := [(1, {| l_size := 3; l_offs := [0] |}); (0, {| l_size := 2; l_offs := [3;5] |})] in
   let r := clone_model [] None cidx None [(7, [9;9]); (0, [1;2])] [(1, [3;4;5]); (0, [1;2])] in
@@ -36,3 +57,7 @@ Proof. vm_compute. repeat split; reflexivity. Qed.
 
 Print Assumptions C02_clone_with_seeds.
 Print Assumptions C02_seeds_irrelevant.
+Print Assumptions C02_hash_keyed_index_refines_add.
+Print Assumptions C02_hash_keyed_index_refines_remove.
+Print Assumptions C02_hash_keyed_index_refines_contains.
+Print Assumptions C02_lookup_truncates_consistently.
